@@ -13,6 +13,7 @@ Template directives (everything else is copied through verbatim):
   //@closure                               (one per closure literal, in order: its `ensures` expression)
   //@@end
 """
+import os
 import re
 import shlex
 from . import extract as X
@@ -62,6 +63,11 @@ def parse_template(tpl):
                     cur = None
                 elif d.startswith('//@contract'):
                     cur = f.contract
+                    mm = re.match(r'//@contract @(\w+)', d)
+                    if mm:   # shared contract text (same file for the sync and the unsync flavour)
+                        with open(os.path.join(os.path.dirname(os.path.dirname(os.path.abspath(__file__))), 'units', 'contracts', mm.group(1) + '.contract')) as fh:
+                            cur.extend(fh.read().rstrip('\n').split('\n'))
+                        f.opts['contract_file'] = mm.group(1)
                 elif d.startswith('//@loop '):
                     cur = f.loops.setdefault(int(d.split()[1]), [])
                 elif d.startswith('//@before ') or d.startswith('//@after '):
@@ -189,6 +195,7 @@ def build_fn(f, sources, fnmeta):
         'sha256_16': X.sha(text), 'profile': ctx.profile, 'rules': ctx.counts,
         'props': [p for p in o.get('props', '').split(',') if p],
         'loops_without_invariant': sorted(unused), 'translated_sha': X.sha(translated),
+        'contract_file': o.get('contract_file'),
     }
     return full, meta
 
